@@ -5,11 +5,11 @@ namespace Dsw
 
 /-! ### nucleotide symbols -/
 
-theorem nucIdx_nucChar (j : Nat) (hj : j < 4) : nucIdx (nucChar j) = some j := by
+theorem nucIdx_nucChar_vt (j : Nat) (hj : j < 4) : nucIdx (nucChar j) = some j := by
   have : j = 0 ∨ j = 1 ∨ j = 2 ∨ j = 3 := by omega
   rcases this with h | h | h | h <;> subst h <;> decide
 
-theorem nucIdx_nucChar_isSome (j : Nat) : (nucIdx (nucChar j)).isSome = true := by
+theorem nucIdx_nucChar_isSome_vt (j : Nat) : (nucIdx (nucChar j)).isSome = true := by
   unfold nucChar
   split
   · decide
@@ -18,8 +18,8 @@ theorem nucIdx_nucChar_isSome (j : Nat) : (nucIdx (nucChar j)).isSome = true := 
     · split <;> decide
 
 theorem nucChar_inj {i j : Nat} (hi : i < 4) (hj : j < 4) (h : nucChar i = nucChar j) : i = j := by
-  have h1 := nucIdx_nucChar i hi
-  have h2 := nucIdx_nucChar j hj
+  have h1 := nucIdx_nucChar_vt i hi
+  have h2 := nucIdx_nucChar_vt j hj
   rw [h] at h1
   rw [h1] at h2
   exact Option.some.inj h2
@@ -36,7 +36,7 @@ theorem nucChar_of_nucIdx {c : Char} {j : Nat} (h : nucIdx c = some j) : c = nuc
         · cases h; subst_vars; rfl
         · cases h
 
-theorem nucIdx_lt {c : Char} {j : Nat} (h : nucIdx c = some j) : j < 4 := by
+theorem nucIdx_lt_vt {c : Char} {j : Nat} (h : nucIdx c = some j) : j < 4 := by
   unfold nucIdx at h
   split at h
   · cases h; omega
@@ -48,10 +48,10 @@ theorem nucIdx_lt {c : Char} {j : Nat} (h : nucIdx c = some j) : j < 4 := by
         · cases h; omega
         · cases h
 
-theorem nucIdx_getD_lt (c : Char) : (nucIdx c).getD 0 < 4 := by
+theorem nucIdx_getD_lt_vt (c : Char) : (nucIdx c).getD 0 < 4 := by
   cases h : nucIdx c with
   | none => simp
-  | some j => simpa using nucIdx_lt h
+  | some j => simpa using nucIdx_lt_vt h
 
 /-- two ACGT symbols with the same value are equal. -/
 theorem nucIdx_getD_inj {c d : Char} (hc : (nucIdx c).isSome = true) (hd : (nucIdx d).isSome = true)
@@ -106,7 +106,7 @@ theorem isAcgt_insert {s : List Char} (h : IsAcgt s) (p : Nat) {x : Char}
 
 /-! ### `nucValues` -/
 
-theorem nucValues_ok {s : List Char} (hs : IsAcgt s) :
+theorem nucValues_ok_vt {s : List Char} (hs : IsAcgt s) :
     nucValues s = .ok (s.map fun c => (nucIdx c).getD 0) := by
   induction s with
   | nil => rfl
@@ -145,8 +145,8 @@ theorem sum_vals_set_mod_ne (s : List Char) (p : Nat) (x : Char) (hs : IsAcgt s)
     | zero =>
       have hcx : c ≠ x := by simpa using hne
       have hv : (nucIdx c).getD 0 ≠ (nucIdx x).getD 0 := fun h => hcx (nucIdx_getD_inj hs.1 hx h)
-      have h1 := nucIdx_getD_lt c
-      have h2 := nucIdx_getD_lt x
+      have h1 := nucIdx_getD_lt_vt c
+      have h2 := nucIdx_getD_lt_vt x
       simp only [List.set_cons_zero, List.map_cons, List.sum_cons]
       omega
     | succ p =>
@@ -240,12 +240,12 @@ theorem kmerIdx_foldl_digitsNat (n : Nat) (acc : List Nat) :
     · have hc : ¬ (n = 0 ∨ 4 < 2) := by omega
       rw [dif_neg hc, ih (n / 4) (by omega)]
       simp only [List.map_cons, List.foldl_cons]
-      rw [nucIdx_nucChar (n % 4) (by omega)]
+      rw [nucIdx_nucChar_vt (n % 4) (by omega)]
       simp only [Option.getD_some]
       have : n / 4 * 4 + n % 4 = n := by omega
       rw [this]
 
-theorem digitsNat_length_le (w n : Nat) (acc : List Nat) (h : n < 4 ^ w) :
+theorem digitsNat_length_le_vt (w n : Nat) (acc : List Nat) (h : n < 4 ^ w) :
     (digitsNat 4 n acc).length ≤ w + acc.length := by
   induction w generalizing n acc with
   | zero =>
@@ -266,7 +266,7 @@ theorem digitsNat_length_le (w n : Nat) (acc : List Nat) (h : n < 4 ^ w) :
       omega
 
 theorem numberToDnaInt_length (v w : Nat) (h : v < 4 ^ w) : (numberToDnaInt v w).length = w := by
-  have := digitsNat_length_le w v [] h
+  have := digitsNat_length_le_vt w v [] h
   simp only [List.length_nil] at this
   simp only [numberToDnaInt, padDna, List.length_append, List.length_replicate, List.length_map]
   omega
@@ -295,18 +295,18 @@ theorem isAcgt_numberToDnaInt (v w : Nat) : IsAcgt (numberToDnaInt v w) := by
   simp only [numberToDnaInt, padDna, List.mem_append, List.mem_replicate, List.mem_map] at hc
   rcases hc with ⟨_, rfl⟩ | ⟨j, _, rfl⟩
   · decide
-  · exact nucIdx_nucChar_isSome j
+  · exact nucIdx_nucChar_isSome_vt j
 
 /-! ### `setVt` -/
 
-theorem setVt_ok {s : List Char} (n : Nat) (hs : IsAcgt s) :
+theorem setVt_ok_vt {s : List Char} (n : Nat) (hs : IsAcgt s) :
     setVt s n = .ok (nucChar ((s.map fun c => (nucIdx c).getD 0).sum % 4) ::
       numberToDnaInt
         (((List.range ((s.map fun c => (nucIdx c).getD 0).length - 1)).filter fun j =>
           (s.map fun c => (nucIdx c).getD 0).getD j 0 <
             (s.map fun c => (nucIdx c).getD 0).getD (j + 1) 0).sum % 4 ^ (n - 1)) (n - 1)) := by
   unfold setVt
-  rw [nucValues_ok hs]
+  rw [nucValues_ok_vt hs]
   simp only [Except.map, foldl_add_eq_sum, Nat.zero_add, ascentSum_zero]
 
 theorem setVt_err {s : List Char} (n : Nat) (hs : ¬ IsAcgt s) : setVt s n = .error .valueError := by
@@ -318,7 +318,7 @@ theorem setVt_err {s : List Char} (n : Nat) (hs : ¬ IsAcgt s) : setVt s n = .er
 theorem setVt_length {s c : List Char} {n : Nat} (hn : 1 ≤ n) (h : setVt s n = .ok c) :
     c.length = n := by
   by_cases hs : IsAcgt s
-  · rw [setVt_ok n hs] at h
+  · rw [setVt_ok_vt n hs] at h
     cases h
     rw [List.length_cons, numberToDnaInt_length _ _ (Nat.mod_lt _ (Nat.pow_pos (by omega)))]
     omega
@@ -330,7 +330,7 @@ theorem setVt_head_ne {s s' : List Char} (n : Nat) (hs : IsAcgt s) (hs' : IsAcgt
     (hne : (s.map fun c => (nucIdx c).getD 0).sum % 4 ≠
       (s'.map fun c => (nucIdx c).getD 0).sum % 4) :
     ∃ c c', setVt s n = .ok c ∧ setVt s' n = .ok c' ∧ c.head? ≠ c'.head? := by
-  refine ⟨_, _, setVt_ok n hs, setVt_ok n hs', ?_⟩
+  refine ⟨_, _, setVt_ok_vt n hs, setVt_ok_vt n hs', ?_⟩
   simp only [List.head?_cons, ne_eq, Option.some.injEq]
   intro h
   exact hne (nucChar_inj (Nat.mod_lt _ (by omega)) (Nat.mod_lt _ (by omega)) h)
